@@ -340,6 +340,44 @@ def load_known():
     return json.load(open(p)).get('findings', [])
 
 
+def _parser_stream(prev):
+    """Abstract parser state reconstructed from the recorded events before the
+    rejected one (helpers for witness predicates): bytes accepted since the
+    last Reset, parse position, discarded bytes, Parse(nil) seen."""
+    inp, w, off0, nils = [], 0, 0, False
+    for e in prev:
+        op = e.get('op')
+        if op == 'write':
+            inp += e['p'][:max(e.get('n', 0), 0)]
+        elif op == 'readfrom':
+            for c in e.get('calls', []):
+                inp += c[3]
+        elif op in ('parse', 'parsenil'):
+            w += e.get('n', 0)
+            nils = nils or op == 'parsenil'
+        elif op == 'shrink':
+            off0 += e.get('delta', 0)
+        elif op == 'reset' and e.get('err') == '':
+            inp, w, off0, nils = list(e.get('data') or []), 0, 0, False
+    return dict(inp=inp, w=w, off0=off0, nils=nils)
+
+
+def _distant_equal_run(prev, n, wnd, mm):
+    """True iff the block of n bytes at the parse position is a run of one byte
+    and an equal run of at least mm bytes starts at distance >= wnd before the
+    block inside the buffered data."""
+    st = _parser_stream(prev)
+    inp, w, off0 = st['inp'], st['w'], st['off0']
+    blk = inp[w:w + n]
+    if not blk or any(b != blk[0] for b in blk):
+        return False
+    c = blk[0]
+    for j in range(off0, w - wnd + 1):
+        if all(0 <= j + k < len(inp) and inp[j + k] == c for k in range(mm)):
+            return True
+    return False
+
+
 def match_known(known, prop, why, ev, begin, prev):
     """A rejected event matches an open known finding iff the property, one of
     the broken rules and the entry's witness predicate (a Python expression
@@ -355,7 +393,8 @@ def match_known(known, prop, why, ev, begin, prev):
         try:
             ok = eval(k.get('witness', 'True'), {'__builtins__': {}},
                       dict(ev=ev, cfg=begin, prev=prev, len=len, any=any, all=all, max=max, min=min, sum=sum,
-                           set=set, str=str, int=int))
+                           set=set, str=str, int=int, parser_state=_parser_stream,
+                           distant_equal_run=_distant_equal_run))
         except Exception:
             ok = False
         if ok:
